@@ -289,3 +289,262 @@ def call_edge_filter(fn, is_atom, value):
             return True
         return idx == (0 if (value != neg) else 1)
     return edge_ok
+
+
+# ---------------------------------------------------------------------------------------------------- element loops
+
+class ElemLoop(object):
+    """A loop that visits the elements of one sequence once each, in any of the equivalent spellings
+         for (T v : seq)                                   (range-based for)
+         for (auto it = seq.begin(); it != seq.end(); ++it)  /  auto it = seq.begin(); while (it != seq.end()) { ..; ++it; }
+    `seq` is the node id of the sequence expression, `roots` the set of fn.root_var() values that denote the CURRENT
+    element (the loop variable, the iterator, locals bound to `*it`), `start` an element id executed at the beginning of
+    every iteration (searches start just after it), `inc` the element id of the advance, `mutable` whether the stored
+    element can be modified through the loop variable."""
+    __slots__ = ('loop', 'seq', 'roots', 'start', 'inc', 'mutable', 'kind')
+
+    def is_elem(self, fn, nid):
+        return nid is not None and fn.root_var(nid) in self.roots
+
+    # compatibility with the older RangeLoop interface
+    def mutable_reference(self):
+        return self.mutable
+
+
+def _decls(fn):
+    out = {}
+    for n in fn.all_nodes():
+        if n.get('k') == 'decl':
+            for v in n['vars']:
+                out[v['d']] = (n, v)
+    return out
+
+
+def _advance_of(fn, d, name):
+    for m in fn.all_nodes():
+        if (m.get('k') == 'call' and m.get('op') == '++') or (m.get('k') == 'unop' and m.get('op') == '++'):
+            tgt = m.get('recv') if m.get('recv') is not None else (m.get('args') or [m.get('sub')])[0]
+            if tgt is not None and fn.root_var(tgt) == ('var', d, name) and (fn.sn(tgt) or {}).get('k') == 'var':
+                return m['id']
+    return None
+
+
+def elem_loops(fn):
+    """All element loops of fn (see ElemLoop)."""
+    out = []
+    decls = _decls(fn)
+    for L in range_loops(fn):
+        E = ElemLoop()
+        E.loop, E.seq, E.start, E.inc, E.kind = L.loop, L.range_init, L.var_decl, L.inc, 'range-for'
+        E.roots = {('var', L.var_d, L.var_name)}
+        E.mutable = L.mutable_reference()
+        out.append(E)
+    range_begins = {L.begin_d for L in range_loops(fn)}
+    for d, (n, v) in decls.items():
+        if d in range_begins or not isinstance(v.get('init'), int):
+            continue
+        s = fn.sn(v['init'])
+        if s is None or s.get('k') != 'call' or s.get('recv') is None or s.get('args') or s.get('q', '').rsplit('::', 1)[-1] not in ('begin', 'cbegin'):
+            continue
+        seq_root = fn.root_var(s['recv'])
+        it = ('var', d, v['name'])
+        inc = _advance_of(fn, d, v['name'])
+        if inc is None:
+            continue
+        # loop condition: it != seq.end()
+        cond_elem = None
+        for b in fn.blocks.values():
+            if 'cond' not in b or b.get('termcls') not in ('ForStmt', 'WhileStmt', 'DoStmt'):
+                continue
+            c = fn.sn(b['cond'])
+            if c is None or c.get('k') != 'call' or c.get('op') != '!=':
+                continue
+            ops = ([c['recv']] if c.get('recv') is not None else []) + [a for a in c.get('args', []) if a is not None]
+            if len(ops) != 2:
+                continue
+            for (x, y) in ((ops[0], ops[1]), (ops[1], ops[0])):
+                yn = fn.sn(y)
+                if fn.root_var(x) == it and (fn.sn(x) or {}).get('k') == 'var' and yn is not None and yn.get('k') == 'call' and \
+                        yn.get('q', '').rsplit('::', 1)[-1] in ('end', 'cend') and yn.get('recv') is not None and fn.root_var(yn['recv']) == seq_root:
+                    cond_elem = c['id']
+        if cond_elem is None:
+            continue
+        loops = [l for l in fn.loops if l['cls'] in ('ForStmt', 'WhileStmt', 'DoStmt') and fn.in_range(inc, l['b'], l['e'])]
+        if not loops:
+            continue
+        E = ElemLoop()
+        E.loop, E.seq, E.start, E.inc, E.kind = min(loops, key=lambda l: l['e'] - l['b']), s['recv'], cond_elem, inc, 'iterator'
+        E.roots = {it}
+        # locals bound to the current element (`auto& e = *it;`)
+        for d2, (n2, v2) in decls.items():
+            if d2 != d and isinstance(v2.get('init'), int) and fn.in_range(n2['id'], E.loop['b'], E.loop['e']):
+                s2 = fn.sn(v2['init'])
+                if s2 is not None and s2.get('k') == 'call' and s2.get('op') == '*' and fn.root_var(v2['init']) == it and v2['tC'].rstrip().endswith('&'):
+                    E.roots.add(('var', d2, v2['name']))
+        t = v['tC']
+        first = t[t.find('<') + 1:] if '<' in t else t
+        first = first.split(',')[0]
+        E.mutable = 'const ' not in first and ' const' not in first and 'const_iterator' not in v['t']
+        out.append(E)
+    return out
+
+
+def loop_contains(fn, L, nid):
+    return fn.in_range(nid, L.loop['b'], L.loop['e'])
+
+
+# ---------------------------------------------------------------------------------------------------- helper inlining
+
+class Collector(object):
+    """Reporter stand-in that records the calls so a rule body can be evaluated tentatively and replayed."""
+
+    def __init__(self):
+        self.log = []
+        self.failed = False
+
+    def ok(self, *a, **k):
+        self.log.append(('ok', a, k))
+
+    def bad(self, *a, **k):
+        self.failed = True
+        self.log.append(('bad', a, k))
+
+    def check(self, cond, *a, **k):
+        if not cond:
+            self.failed = True
+        self.log.append(('check', (cond,) + a, k))
+        return cond
+
+    def broken(self, *a, **k):
+        self.failed = True
+        self.log.append(('broken', a, k))
+
+    def note(self, *a, **k):
+        self.log.append(('note', a, k))
+
+    def expect(self, *a, **k):
+        self.log.append(('expect', a, k))
+
+    def replay(self, R):
+        for (m, a, k) in self.log:
+            getattr(R, m)(*a, **k)
+
+
+def _renumber(n, off, child_keys, list_keys):
+    m = dict(n)
+    m['id'] = n['id'] + off
+    for k in child_keys:
+        v = m.get(k)
+        if isinstance(v, int) and not isinstance(v, bool):
+            m[k] = v + off
+    for k in list_keys:
+        if k in m:
+            m[k] = [(x + off if isinstance(x, int) else x) for x in m[k]]
+    if m.get('k') == 'decl':
+        vs = []
+        for v in m['vars']:
+            v = dict(v)
+            if isinstance(v.get('init'), int):
+                v['init'] += off
+            vs.append(v)
+        m['vars'] = vs
+    if m.get('k') == 'lambda' and 'captures' in m:
+        cs = []
+        for c in m['captures']:
+            c = dict(c)
+            if isinstance(c.get('init'), int):
+                c['init'] += off
+            cs.append(c)
+        m['captures'] = cs
+    return m
+
+
+def inline_calls(fb, fn, should_inline, max_inlines=10):
+    """A view of fn (same class as osmlint.facts.Fn) in which every call for which should_inline(view, call node, callee Fn)
+    holds is expanded in place: the callee's blocks are spliced into the CFG between the evaluation of the arguments and
+    the call node (which stays, as the value of the call), the callee's parameters become aliases of the argument
+    expressions, its `this` an alias of the receiver, its `return e;` plain value expressions.  Returns fn itself when
+    nothing was inlined.  Semantics-preserving for non-recursive, non-virtual callees."""
+    import copy
+    from .facts import _CHILD_KEYS, _CHILD_LIST_KEYS
+    view = fn
+    done = 0
+    stack = {fn.usr}
+    progress = True
+    while progress and done < max_inlines:
+        progress = False
+        blocks_elems = {e: b['id'] for b in view.blocks.values() for e in b['elems']}
+        for n in sorted(view.nodes.values(), key=lambda n: n['id']):
+            if n.get('k') != 'call' or not n.get('u') or n.get('virt') or n['id'] not in blocks_elems or n.get('_inlined'):
+                continue
+            cands = [g for g in fb.by_usr.get(n['u'], []) if g.has_cfg and g.unit == fn.unit] or [g for g in fb.by_usr.get(n['u'], []) if g.has_cfg]
+            if not cands or cands[0].usr in stack:
+                continue
+            g = cands[0]
+            if not should_inline(view, n, g):
+                continue
+            if view is fn:
+                view = copy.copy(fn)
+                view.nodes = dict(fn.nodes)
+                view.blocks = {k: dict(b) for k, b in fn.blocks.items()}
+                view.loops = list(fn.loops)
+                view._pos = view._preds = view._parent = view._dom = view._pdom = None
+                view.inlined = []
+            off = max(view.nodes) + 1
+            boff = max(view.blocks) + 1
+            args = [a for a in n.get('args', [])]
+            pmap = {p['d']: (args[i] if i < len(args) else None) for i, p in enumerate(g.params)}
+            for m in g.nodes.values():
+                m2 = _renumber(m, off, _CHILD_KEYS, _CHILD_LIST_KEYS)
+                if m.get('k') == 'var' and m.get('vk') == 'param' and pmap.get(m.get('d')) is not None:
+                    m2 = {'k': 'wrap', 'id': m2['id'], 'sub': pmap[m['d']], 't': m.get('t'), 'l': m.get('l'), 'o': m.get('o'), 'f': m.get('f', g.file), 'cls': 'InlinedParam'}
+                elif m.get('k') == 'this' and n.get('recv') is not None:
+                    m2 = {'k': 'wrap', 'id': m2['id'], 'sub': n['recv'], 't': m.get('t'), 'l': m.get('l'), 'o': m.get('o'), 'f': m.get('f', g.file), 'cls': 'InlinedThis'}
+                elif m.get('k') == 'return':
+                    m2['k'] = 'wrap' if 'sub' in m2 else 'stmt'
+                    m2['cls'] = 'InlinedReturn'
+                if 'f' not in m2 and g.file != fn.file:
+                    m2['f'] = g.file
+                view.nodes[m2['id']] = m2
+            # split the caller block at the call element
+            bid = blocks_elems[n['id']]
+            B = view.blocks[bid]
+            i = B['elems'].index(n['id'])
+            post_id = boff + max(g.blocks) + 1
+            post = dict(B)
+            post['id'] = post_id
+            post['elems'] = B['elems'][i:]
+            post.pop('label', None)
+            pre = dict(B)
+            pre['elems'] = B['elems'][:i]
+            pre['succs'] = [g.entry + boff]
+            for k in ('term', 'termcls', 'cond'):
+                pre.pop(k, None)
+            view.blocks[bid] = pre
+            view.blocks[post_id] = post
+            if view.exit == bid:
+                view.exit = post_id
+            for b in g.blocks.values():
+                b2 = dict(b)
+                b2['id'] = b['id'] + boff
+                b2['elems'] = [e + off for e in b['elems']]
+                b2['succs'] = [(s + boff if s is not None else None) for s in b['succs']]
+                for k in ('term', 'cond'):
+                    if isinstance(b2.get(k), int):
+                        b2[k] += off
+                if b2.get('label') and isinstance(b2['label'].get('case'), int):
+                    b2['label'] = dict(b2['label'], case=b2['label']['case'] + off)
+                if b['id'] == g.exit:
+                    b2['succs'] = [post_id]
+                view.blocks[b2['id']] = b2
+            view.loops = view.loops + list(g.loops)
+            n2 = dict(view.nodes[n['id']])
+            n2['_inlined'] = g.q
+            view.nodes[n['id']] = n2
+            view.inlined.append(g.q)
+            view._pos = view._preds = view._parent = view._dom = view._pdom = None
+            stack.add(g.usr)
+            done += 1
+            progress = True
+            break
+    return view
